@@ -130,6 +130,21 @@ class P(core.Prop):
                 except Exception as e:
                     cur.append(['raised', exc_kind(e)])
                 ops.append(cur)
+        # a late observer: when_done() asked again after everything has happened must see the outcome the
+        # first observer saw (or nothing, if none was reported).  A DIFFERENT outcome means the attempt was
+        # resolved a second time: it is recorded as a further `done` event of the last operation, which the
+        # oracle's exactly-once clauses reject.  An equal outcome adds nothing, so the trace is unchanged.
+        first = [e for op in ops for e in op if e[0] == 'done']
+        cur = []
+        try:
+            proto.when_done().addCallbacks(done_ok, done_err)
+        except Exception as e:
+            cur.append(['raised', exc_kind(e)])
+        late = [e for e in cur if e[0] == 'done']
+        if first and ops and (late != first[:1] or len(cur) != len(late)):
+            ops[-1].extend(cur if cur else [['done', 'other', 'late observer never fired']])
+        elif not first and cur:
+            ops[-1].extend(cur)
         return {'ops': ops, 'fed': fed, 'raised': raised}
 
     @staticmethod
